@@ -72,6 +72,12 @@ def mc_configs(tier):
         ("reductions", consts(Red0="amax", Reds={"default", "mean", "amin"}, FullKinds={"none"}, E=1,
                               PartVals={0, S // 2}, Forms={"pair"}, Families=ALLFAM - {"bound", "some"},
                               MaxDepth=4 if q else 5)),
+        # custom reductions that are not the identity on ONE part (2*sum, clipped sum, sum of squares),
+        # at construction and through reduction(), with 0..3 pending parts
+        ("custom-reductions", consts(Red0="clip", Reds={"default", "sum2", "sumsq"}, FullKinds={"none", "mult"},
+                                     PartVals={S // 4, S}, MaxParts=3, Forms={"single", "attr"},
+                                     Families=ALLFAM - {"some", "clear"} - ({"bound"} if q else set()),
+                                     MaxDepth=4 if q else 5)),
         # two parameters: update / updatesome / clear interplay
         ("two-params", consts(PNames={"weight", "bias"}, PartVals={S // 2}, Forms={"pair"}, Reds={"default"},
                               FullKinds={"mult"} if not q else set(),
@@ -105,6 +111,9 @@ def gen_configs(tier):
         ("reductions-ctor", consts(Red0="amax", Reds={"default", "mean", "amin"}, FullKinds={"none"},
                                    E=1, PartVals={0, S // 2}, Forms={"pair"},
                                    Families=ALLFAM - {"bound", "some"}, MaxDepth=d)),
+        ("custom-reductions-ctor", consts(Red0="sum2", Reds={"default", "clip", "sumsq"}, FullKinds={"none"},
+                                          PartVals={S // 4, S}, MaxParts=3, Forms={"pair"},
+                                          Families=ALLFAM - {"bound", "some"}, MaxDepth=d)),
         ("reductions-ctor-2el", consts(Red0="amin", Reds={"default", "mean", "amax"}, FullKinds={"none"},
                                        E=2, PartVals={0, S // 2}, Forms={"pair"},
                                        Families=ALLFAM - {"bound", "some"}, MaxDepth=3)),
@@ -349,7 +358,7 @@ def random_updater_traces(rng, count, steps=40):
         sizes = {"weight": n_in * n_out, "bias": n_out, "delay": n_in * n_out}
         w0 = {p: [rng.choice([-S, -S // 2, 0, S // 4, S // 2, S, 3 * S // 2, 2 * S]) for _ in range(sizes[p])]
               for p in params}
-        red0 = rng.choice(["default", "default", "amax", "mean", "amin"])
+        red0 = rng.choice(["default", "default", "amax", "mean", "amin", "sum2", "clip", "sumsq"])
         hdr = {"S": S, "params": params, "n_in": n_in, "n_out": n_out, "w0": w0, "red0": red0}
         impl = UpdaterImpl(hdr)
         init = _mech_init(impl)
@@ -426,7 +435,8 @@ def random_updater_traces(rng, count, steps=40):
                     if (q == "*" or qq == q) and (side == "*" or ss == side):
                         nparts[(qq, ss)] = 0
             elif r < 0.90:
-                do({"a": "reduction", "p": p, "r": rng.choice(["default", "amax", "amin", "mean", "sum"])})
+                do({"a": "reduction", "p": p, "r": rng.choice(["default", "amax", "amin", "mean", "sum", "sum2", "clip",
+                                                               "sumsq"])})
             else:
                 do(_rand_bound_op(rng, p))
         traces.append({"hdr": {"init": init, "cfg": hdr, "waive": []}, "ev": evs, "_impl": impl})
